@@ -690,7 +690,7 @@ class Interp:
         return False
 
 
-def tiling(intervals, length, interp, verb="written"):
+def tiling(intervals, length, interp, verb="written", only_over=False):
     """do the intervals tile exactly [0, length)?  returns (True, None) / (False, description) / raises Broken"""
     ivs = [(lo, hi) for (lo, hi, w, iid, kind) in intervals]
     # drop empty intervals
@@ -717,7 +717,7 @@ def tiling(intervals, length, interp, verb="written"):
         s = interp.sign(lo.add(cur, -1))
         if s is None:
             raise Broken("D-COV: adjacency undecided")
-        if s > 0:
+        if s > 0 and not only_over:
             return False, "bytes [%s, %s) are never %s" % (cur, lo, verb)
         if s < 0:
             # overlap: allowed (re-writing) but track the furthest end
@@ -730,7 +730,7 @@ def tiling(intervals, length, interp, verb="written"):
     s = interp.sign(cur.add(length, -1))
     if s is None:
         raise Broken("D-COV: total extent undecided")
-    if s < 0:
+    if s < 0 and not only_over:
         return False, "bytes [%s, %s) at the end are never %s" % (cur, length, verb)
     if s > 0:
         return False, "bytes [%s, %s) beyond the declared length are %s" % (length, cur, verb)
@@ -740,7 +740,7 @@ def tiling(intervals, length, interp, verb="written"):
     return True, None
 
 
-def coverage(f, buf_arg, len_arg, fixed_args=None, W=8, Q0=8, mode="write", field_consts=None):
+def coverage(f, buf_arg, len_arg, fixed_args=None, W=8, Q0=8, mode="write", field_consts=None, only_over=False):
     """analyse all classes; returns (n classes, first failing (class, why) or None, per-class store ids)"""
     bad = None
     n = 0
@@ -751,7 +751,7 @@ def coverage(f, buf_arg, len_arg, fixed_args=None, W=8, Q0=8, mode="write", fiel
         n += 1
         for iv in it.intervals:
             used.add(iv[3])
-        ok, why = tiling(it.intervals, cls.length(), it, "written" if mode == "write" else "read")
+        ok, why = tiling(it.intervals, cls.length(), it, "written" if mode == "write" else "read", only_over=only_over)
         if not ok and bad is None:
             bad = (cls, why)
     return n, bad, used
